@@ -380,6 +380,17 @@ func checkBytes(b []byte, st *Stats) error {
 	if err := sameOutcome("ParseFile vs ParseObject", f1, o1); err != nil {
 		return errf("%v on input %q", err, clip(s, 200))
 	}
+	// the same unchanged file parsed again, after the first result was modified: still what ParseObject gives
+	if fo, ok := f1.c.(at.Object); ok {
+		fo.Set("\x00modified-by-the-harness", at.NewList(1)).Unset(sortedKeys(fo)...)
+	}
+	f2, err := guarded("ParseFile", callParseFile(path))
+	if err != nil {
+		return errf("%v on file content %q (second read)", err, clip(s, 200))
+	}
+	if err := sameOutcome("second ParseFile of the same file vs ParseObject", f2, o2); err != nil {
+		return errf("%v on input %q", err, clip(s, 200))
+	}
 	// unreadable paths
 	for _, bad := range []string{filepath.Join(dir, "missing-"+fmt.Sprint(len(b))+".json"), dir, ""} {
 		m, err := guarded("ParseFile", callParseFile(bad))
